@@ -198,7 +198,7 @@ def run(ck, replay=None):
         if sum(m1) == 0:
             continue
         events.append(thin_event(darsia, rng, f"thinlong:{i}", m1, m2))
-    for i in range(6 if quick else 300):
+    for i in range(6 if quick else 60):   # ~25 s each (several solves plus the brute-force minimum)
         events.append(relations_event(darsia, rng, f"rel:{i}"))
     for i in range(8 if quick else 100):
         events.append(emd_event(darsia, rng, f"emd:{i}"))
